@@ -551,9 +551,10 @@ func init() {
 	Registry["C13"] = Prop{"model_checking", C13}
 	replayers["C13"] = func(raw json.RawMessage) string {
 		var bh struct {
-			Kind  string
-			First c13Call
-			Then  c13Call
+			Kind     string
+			First    c13Call
+			Then     c13Call
+			Repeated int
 		}
 		json.Unmarshal(raw, &bh)
 		if bh.Kind == "build-history" {
@@ -569,7 +570,11 @@ func init() {
 			if i < 0 || j < 0 {
 				return "the calls of this replay are no longer in the universe"
 			}
-			alone, after := c13RunHistory(j), c13RunHistory(i, j)
+			hist := []int{i}
+			for k := 1; k < bh.Repeated; k++ {
+				hist = append(hist, i)
+			}
+			alone, after := c13RunHistory(j), c13RunHistory(append(hist, j)...)
 			fmt.Printf("   %s alone: %s\n   after %s: %s\n", bh.Then, alone, bh.First, after)
 			if alone != after {
 				return "the outcome depends on what was built and executed before in the same process"
